@@ -5,7 +5,9 @@
 From Coq Require Import ZArith List Bool.
 From V Require Import factory.FacModel factory.FacSpec factory.FacObs factory.FacEq factory.FacEqThm
   factory.FacLock factory.FacLock2 factory.FacRefute factory.FacThm factory.FacThm2 factory.FacThm3 factory.FacProg factory.FacFresh
-  factory.FacEqGenBase gen.FacEqGen factory.FacEqGenThm factory.FacCfg gen.FacCfgGen factory.FacCfgThm.
+  factory.FacEqGenBase gen.FacEqGen factory.FacEqGenThm factory.FacCfg gen.FacCfgGen factory.FacCfgThm
+  factory.FacFixed gen.FixedGen factory.FacFixedThm.
+From V Require tzfile.TzModel.
 Import ListNotations.
 Open Scope Z_scope.
 
@@ -225,6 +227,45 @@ Theorem C18_step_follows_cfg : forall progs sched t th s' th',
   th' = th \/ allowed (cfg_of th) (tpc th) (tpc th') = true.
 Proof. exact run_follows_cfg_lemma. Qed.
 Print Assumptions C18_step_follows_cfg.
+
+(* ---- fixed-offset zones: the methods of tzutc / tzoffset and tzoffset.__init__, regenerated from
+   the source by harness/gen_fixedzones.py (gen/FixedGen.v), are the hand model FacFixed ... *)
+Theorem C18_gen_fixed_tzoffset : forall self dt,
+  gen_tzoffset_utcoffset self dt = fx_utcoffset self dt /\ gen_tzoffset_dst self dt = fx_dst self dt /\
+  gen_tzoffset_tzname self dt = fx_tzname self dt /\ gen_tzoffset_is_ambiguous self dt = fx_is_ambiguous self dt /\
+  gen_tzoffset_fromutc self dt = fx_fromutc self dt.
+Proof. exact gen_fixed_tzoffset_lemma. Qed.
+Print Assumptions C18_gen_fixed_tzoffset.
+
+Theorem C18_gen_fixed_tzutc : forall dt,
+  gen_tzutc_utcoffset dt = ux_utcoffset dt /\ gen_tzutc_dst dt = ux_dst dt /\ gen_tzutc_tzname dt = ux_tzname dt /\
+  gen_tzutc_is_ambiguous dt = ux_is_ambiguous dt /\ gen_tzutc_fromutc dt = ux_fromutc dt.
+Proof. exact gen_fixed_tzutc_lemma. Qed.
+Print Assumptions C18_gen_fixed_tzutc.
+
+Theorem C18_gen_fixed_init : forall name o, gen_tzoffset_init name o = fx_init name o.
+Proof. exact gen_fixed_init_lemma. Qed.
+Print Assumptions C18_gen_fixed_init.
+
+Theorem C18_gen_fixed_enfold : forall dt f, gen_enfold dt f = fx_enfold dt f.
+Proof. exact gen_enfold_lemma. Qed.
+Print Assumptions C18_gen_fixed_enfold.
+
+(* ... and they are the functions the fixed-zone theorems of C04 / C05 (tzfile/TzFixedThm.v:
+   C04_fixed_roundtrip, C05_fixed_classify, stated over the fixed_ definitions of TzModel) quantify over *)
+Theorem C18_gen_fixed_bridge_tzoffset : forall self w f,
+  gen_tzoffset_utcoffset self (w, f) = TzModel.fixed_utcoffset (fz_offset self) w f /\
+  gen_tzoffset_fromutc self (w, f) = TzModel.fixed_fromutc (fz_offset self) w /\
+  gen_tzoffset_is_ambiguous self (w, f) = TzModel.fixed_is_ambiguous (fz_offset self) w.
+Proof. exact fixed_bridge_tzoffset_lemma. Qed.
+Print Assumptions C18_gen_fixed_bridge_tzoffset.
+
+Theorem C18_gen_fixed_bridge_tzutc : forall w f,
+  gen_tzutc_utcoffset (w, f) = TzModel.fixed_utcoffset 0 w f /\
+  gen_tzutc_fromutc (w, false) = TzModel.fixed_fromutc 0 w /\
+  gen_tzutc_is_ambiguous (w, f) = TzModel.fixed_is_ambiguous 0 w.
+Proof. exact fixed_bridge_tzutc_lemma. Qed.
+Print Assumptions C18_gen_fixed_bridge_tzutc.
 
 (* ---- non-vacuity: a two-thread run in which both calls complete, return the same object and
    the spec is checked on two observations *)
